@@ -137,3 +137,9 @@ def c_barrier_zero(ctx, it, cfg):
     ctx.prove('radius-and-barrier-are-zero', and_(eq(R, 0), eq(G, 0)))
     R0, G0 = nb(0, prm, 1)
     ctx.prove('exactly-zero-driving-force', and_(eq(R0, 0), eq(G0, 0)))
+
+# a run continued from a loaded state keeps its clock (step counter and histories come back: contract shared with C20); a run stops early only when its
+# stopping conditions say so (or/and decision: contract shared with C19)
+from . import c20 as _c20, c19 as _c19
+REG.contracts.append(_c20.c_precip.contract)
+REG.contracts.append(_c19.c_post.contract)
